@@ -168,6 +168,7 @@ func runC11(c *Ctx) {
 	c11Order(c, rg)
 	c11KeyIsUnsafe(c)
 	c11ExecKeys(c, safe, allowSuffixes)
+	c11KeyEnumerations(c, allowSuffixes)
 }
 
 // lastPartConst: cond compares the last dot-separated component of `key` with a constant.
@@ -702,5 +703,174 @@ var c11Canaries = []Canary{
 	{Name: "sticky-allowed", ExpectKey: "C11.R2", Edits: []Edit{{File: "config/git_fetcher.go", Find: "		uniqKeys := make(map[string]string)\n\n		for _, line := range gc.Lines {", Repl: "		uniqKeys := make(map[string]string)\n		allowed := !gc.OnlySafeKeys\n\n		for _, line := range gc.Lines {"}, {File: "config/git_fetcher.go", Find: "			allowed := !gc.OnlySafeKeys\n\n			// We don't need", Repl: "			// We don't need"}}},
 	{Name: "dotted-remote-bypass", ExpectKey: "C11.R2", Edits: []Edit{{File: "config/git_fetcher.go", Find: "				if gc.OnlySafeKeys && parts[len(parts)-1] != \"lfsurl\" {", Repl: "				if gc.OnlySafeKeys && (len(parts) == 3 && parts[2] != \"lfsurl\") {"}}},
 	{Name: "case-insensitive-allow", ExpectKey: "C11.R6", Edits: []Edit{{File: "config/git_fetcher.go", Find: "		if safe == key {", Repl: "		if strings.HasPrefix(key, safe) {"}}},
+	{Name: "customtransfer-key-unanchored", ExpectKey: "C11.R7#key-pattern-anchored:tq.configureCustomAdapters", Edits: []Edit{{File: "tq/custom.go", Find: "regexp.MustCompile(`\\Alfs\\.customtransfer\\.([^.]+)\\.path\\z`)", Repl: "regexp.MustCompile(`lfs\\.customtransfer\\.([^.]+)\\.path`)"}}},
+	{Name: "alias-keys-by-prefix-only", ExpectKey: "C11.R7#key-pattern-anchored:lfsapi.initAliases", Edits: []Edit{{File: "lfsapi/endpoint_finder.go", Find: "		if strings.HasSuffix(gitkey, suffix) {\n			storeAlias(e.aliases, gitkey, gitval, suffix)\n		} else if strings.HasSuffix(gitkey, pushSuffix) {", Repl: "		if strings.Contains(gitkey, suffix) {\n			storeAlias(e.aliases, gitkey, gitval, suffix)\n		} else if strings.HasSuffix(gitkey, pushSuffix) {"}}},
 	{Name: "undocumented-suffix", ExpectKey: "C11.R1", Edits: []Edit{{File: "config/git_fetcher.go", Find: "			} else if len(parts) > 2 && parts[len(parts)-1] == \"access\" {\n				allowed = true\n			}", Repl: "			} else if len(parts) > 2 && parts[len(parts)-1] == \"access\" {\n				allowed = true\n			} else if len(parts) > 2 && parts[len(parts)-1] == \"path\" {\n				allowed = true\n			}"}}},
+}
+
+// c11KeyEnumerations (R7): the allow sites admit whole families of keys by their last component
+// (`*.access`, `remote.*.lfsurl`, ...). A consumer that walks over all configuration keys and recognises
+// "its" keys by a pattern must therefore match the whole key: a pattern that is not anchored at its end
+// also accepts `<its key>.access`, which a .lfsconfig may set — and the value is then used as if it were
+// the value of the unsafe key (e.g. the program of a custom transfer agent).
+func c11KeyEnumerations(c *Ctx, suffixes map[string]string) {
+	p := c.P
+	isAll := func(n string) bool { return strings.HasSuffix(n, ".All") }
+	nSites := 0
+	for _, fn := range p.RepoFuncs(productPkg) {
+		if strings.HasPrefix(FnName(fn), "(*config.") && strings.HasSuffix(FnName(fn), ".All") || strings.HasPrefix(FnName(fn), "(config.") {
+			continue // forwarding wrappers
+		}
+		for _, b := range fn.Blocks {
+			for _, in := range b.Instrs {
+				nx, ok := in.(*ssa.Next)
+				if !ok || nx.IsString {
+					continue
+				}
+				rg, ok := nx.Iter.(*ssa.Range)
+				if !ok {
+					continue
+				}
+				if short(rg.X.Type().String()) != "map[string][]string" {
+					continue
+				}
+				fromAll := false
+				for _, l := range p.LeavesNoFields(rg.X, func(v ssa.Value) FlowAct {
+					if cc, _, ok := CallResult(v); ok && isAll(CalleeName(cc.Common())) {
+						return Stop
+					}
+					return Descend
+				}) {
+					if cc, _, ok := CallResult(l); ok && isAll(CalleeName(cc.Common())) {
+						fromAll = true
+					}
+				}
+				if !fromAll {
+					continue
+				}
+				// the key of this iteration
+				var key ssa.Value
+				for _, r := range Referrers(nx) {
+					if ex, ok := r.(*ssa.Extract); ok && ex.Index == 1 {
+						key = ex
+					}
+				}
+				if key == nil {
+					continue
+				}
+				nSites++
+				name := FnName(fn)
+				var prefixes, sufs []string
+				nPat := 0
+				for _, r := range Referrers(key) {
+					cc := AsCall(r)
+					if cc == nil {
+						continue
+					}
+					cn := CalleeName(cc)
+					args := CallArgs(cc)
+					switch {
+					case strings.HasPrefix(cn, "(*regexp.Regexp)."):
+						if len(args) < 2 || Unwrap(args[1]) != key {
+							continue
+						}
+						nPat++
+						pats := c11PatternsOf(p, args[0])
+						if len(pats) == 0 {
+							c.Undecided("R7", "key-pattern:"+name, p.InstrPos(r), "cannot find the constant pattern the keys are matched against")
+						}
+						for _, pat := range pats {
+							begin := strings.HasPrefix(pat, `\A`) || strings.HasPrefix(pat, "^")
+							end := strings.HasSuffix(pat, `\z`) || strings.HasSuffix(pat, "$")
+							c.Check(begin && end, "R7", "key-pattern-anchored:"+name, p.InstrPos(r), "configuration keys are matched as a whole (pattern anchored at both ends)",
+								fmt.Sprintf("configuration keys are recognised with the unanchored pattern %q: it also accepts `<key>.%s`, which .lfsconfig may set (pattern allow site), and the value is then used as the value of the unsafe key itself", pat, firstKey(suffixes)))
+						}
+					case cn == "strings.HasPrefix" && len(args) == 2 && Unwrap(args[0]) == key:
+						if s, ok := ConstString(args[1]); ok {
+							prefixes = append(prefixes, s)
+						} else {
+							prefixes = append(prefixes, "?")
+						}
+					case cn == "strings.HasSuffix" && len(args) == 2 && Unwrap(args[0]) == key:
+						if s, ok := ConstString(args[1]); ok {
+							sufs = append(sufs, s)
+						} else {
+							sufs = append(sufs, "?")
+						}
+					case cn == "strings.Contains" && len(args) == 2 && Unwrap(args[0]) == key, cn == "strings.Index" && len(args) == 2 && Unwrap(args[0]) == key:
+						nPat++
+						c.Bad("R7", "key-pattern-anchored:"+name, p.InstrPos(r), "configuration keys are recognised by a substring test: `<key>."+firstKey(suffixes)+"` from .lfsconfig is accepted as well")
+					}
+				}
+				if len(prefixes) > 0 {
+					nPat++
+					bad := ""
+					for _, s := range sufs {
+						t := strings.TrimPrefix(s, ".")
+						if _, isSfx := suffixes[t]; isSfx {
+							bad = s
+						}
+					}
+					c.Check(len(sufs) > 0 && bad == "", "R7", "key-pattern-anchored:"+name, p.Pos(fn.Pos()), "keys selected by prefix are also tested for their ending",
+						fmt.Sprintf("configuration keys are recognised by prefix %v only (suffix tests: %v): `<key>.%s` from .lfsconfig is accepted as well", prefixes, sufs, firstKey(suffixes)))
+				}
+				if nPat == 0 {
+					c.Info("R7", "key-enumeration:"+name, p.InstrPos(in), "walks over all keys without pattern matching")
+				}
+			}
+		}
+	}
+	c.AtLeast("R7", "functions walking over all configuration keys", nSites, 3)
+}
+
+func firstKey(m map[string]string) string {
+	var ks []string
+	for k := range m {
+		ks = append(ks, k)
+	}
+	sort.Strings(ks)
+	if len(ks) == 0 {
+		return "access"
+	}
+	return ks[0]
+}
+
+// c11PatternsOf returns the constant pattern(s) a *regexp.Regexp value was compiled from; for a
+// fmt.Sprintf-built pattern the format string (anchors are literal text of the format).
+func c11PatternsOf(p *Prog, re ssa.Value) []string {
+	var out []string
+	for _, l := range p.Leaves(re, func(v ssa.Value) FlowAct {
+		if cc, _, ok := CallResult(v); ok && strings.HasPrefix(CalleeName(cc.Common()), "regexp.") {
+			return Stop
+		}
+		return Descend
+	}) {
+		cc, _, ok := CallResult(l)
+		if !ok {
+			if call, isCall := l.(*ssa.Call); isCall {
+				cc = call
+			} else {
+				continue
+			}
+		}
+		n := CalleeName(cc.Common())
+		if n != "regexp.MustCompile" && n != "regexp.Compile" {
+			continue
+		}
+		arg := cc.Common().Args[0]
+		if s, ok := ConstString(arg); ok {
+			out = append(out, s)
+			continue
+		}
+		if sc, _, ok := CallResult(arg); ok && CalleeName(sc.Common()) == "fmt.Sprintf" {
+			if s, ok := ConstString(sc.Common().Args[0]); ok {
+				out = append(out, s)
+			}
+		} else if sc, ok := arg.(*ssa.Call); ok && CalleeName(&sc.Call) == "fmt.Sprintf" {
+			if s, ok := ConstString(sc.Call.Args[0]); ok {
+				out = append(out, s)
+			}
+		}
+	}
+	return out
 }
